@@ -119,6 +119,15 @@ def check_vector(v):
             fn, fd = v["forbes"]
             if fd != 0 and a:
                 cmp("forbes", fn / fd, outcome(lambda: float(forbes(sizes, A, B))))
+            # all pairs of three sets (the diagonal is not a pair and is not compared)
+            JA = v["jaccardAll"]
+            if a and v["third"] and all(JA[i][j][1] != 0 for i in range(3) for j in range(3)):
+                want = [[JA[i][j][0] / JA[i][j][1] if i != j else None for j in range(3)] for i in range(3)]
+
+                def all_vs_all():
+                    m = Geometry(sizes).jaccard_all_vs_all([A, B, _iv(v["third"])])
+                    return [[float(m[i, j]) if i != j else None for j in range(3)] for i in range(3)]
+                cmp("Geometry.jaccard_all_vs_all", want, outcome(all_vs_all))
         nt = [key] if (v["apre"] and v["overlap"] > 0) else []
     return {"n": n, "nt": nt, "bad": bad}
 
